@@ -12,7 +12,7 @@ OP_OWNER = {
     "new": ["C08"], "select": ["C08"], "drop": ["C08"], "slice": ["C08"], "copy": ["C08"],
     "equals": ["C09"], "rebuild": ["C09"], "congruence": ["C09"],
     "tocsv": ["C09", "C13"], "csvroundtrip": ["C13"],
-    "tojson": ["C09", "C14"], "jsonroundtrip": ["C14"], "string": ["C09"],
+    "tojson": ["C09", "C14"], "tojsonfloat": ["C16"], "jsonroundtrip": ["C14"], "string": ["C09"],
     "wfault": ["C15"], "rfault": ["C15"],
     "wf": ["C10"], "callbacks": ["C10"],
     "sortadv": ["C03"], "conc": ["C11"], "grpadv": ["C04", "C05"],
@@ -65,24 +65,27 @@ PROPS = {
             "rule": "cases = batches of 6..12 operations (Filter incl. like/ilike, Sort, Distinct, GroupBy/Aggregate, Apply, FilteredApply, Eval with one shared context, Select/Slice/Copy, ToCSV/ToJSON/String, Equals) "
                     "started together on one frame family, each batch three times, in a binary built with the race detector; every result is compared with the result of the same operation run alone",
             "open_goals": ["the Go memory model is not modelled: absence of races in the real code is observed by the race detector on the explored schedules, not proved"]},
-    "C12": {"lean": ["QF.Props.C12", "QF.Props.C12Read"], "extra_ns": ["QF.Props.C12Read"],
+    "C12": {"lean": ["QF.Props.C12", "QF.Props.C12Read", "QF.Props.C12Infer"], "extra_ns": ["QF.Props.C12Read", "QF.Props.C12Infer"],
             "sections": [{"section": "csvraw", "tag": "csvraw-wit", "opt": "wit=1", "quick": 1, "thorough": 1, "cover_ops": {"C"}},
                          {"section": "csvraw", "quick": 300, "thorough": 3000, "cover_ops": {"C"}},
                          {"section": "csvread", "quick": 300, "thorough": 3000, "cover_ops": {"CV"}}],
             "rule": "cases = (document, read schedule) pairs read by the real fastcsv reader / ReadCSV and replayed through the L0 mirror (exact rows, errors, stale bytes) "
                     "and the RFC 4180 scanner (what the document denotes); distinct by transcript line; every generated document has quotes, delimiters or line breaks in cells with probability > 1/2"},
     "C16": {"lean": ["QF.Props.C16", "QF.Props.C16Tables", "QF.Props.C16Layouts"],
-            "sections": [{"section": "ryu", "quick": 300, "thorough": 5000, "cover_ops": {"F"}}],
+            "sections": [{"section": "ryu", "quick": 300, "thorough": 5000, "cover_ops": {"F"}},
+                         dict({"section": "hist", "tag": "hist-jsonfloat", "opt": "floatheavy=1," + mix("tojson", "tojson", "sort", "filter"), "quick": 120, "thorough": 1500},
+                              cover_ops={"tojson"}, owns=lambda m: m["op"] == "tojsonfloat")],
             "open_goals": ["Ryu precision lemma (the truncated 121/122-bit multipliers give the exact floors for all 2^64 inputs) is not proved; the unbounded claim '= strconv text for every float64' is therefore tested, not proved",
                            "mirror of float64ToDecimal over the extracted tables"],
-            "rule": "cases = (float64 bit pattern, buffer state); each output is checked against the Lean definition of shortest round-trip text (exact big-number arithmetic, QF.Num.isShortestRoundTrip) and against strconv; "
+            "rule": "cases = (float64 bit pattern, buffer state) through the formatter and ToJSON of float-heavy frames (every float token of the output); each output is checked against the Lean definition of shortest round-trip text (exact big-number arithmetic, QF.Num.isShortestRoundTrip) and against strconv; "
                     "generator: special values, all exponents x boundary mantissas, exact integers, powers of ten +-1ulp, short decimals, subnormals, random bits; distinct by (bits, prefix, spare)"},
-    "C13": {"lean": ["QF.Props.C13", "QF.Props.C13Render", "QF.Props.C12", "QF.Props.C12Read"], "extra_ns": ["QF.Props.C12", "QF.Props.C12Read"],
+    "C13": {"lean": ["QF.Props.C13", "QF.Props.C13Render", "QF.Props.C13Write", "QF.Props.C12", "QF.Props.C12Read"], "extra_ns": ["QF.Props.C13Write", "QF.Props.C12", "QF.Props.C12Read"],
             "sections": [dict(hist("hist", ["tocsv", "tocsv", "sort", "filter", "apply"], quick=250), cover_ops={"tocsv"})],
             "rule": "cases = ToCSV of a derived frame with random Header/Columns options; the bytes are parsed with the spec's RFC 4180 scanner and must denote the frame cell by cell "
                     "(floats: the text must parse back to the identical bits by exact arithmetic), then ReadCSV of those bytes with the types declared must give the expected frame (both EmptyNull settings)"},
     "C14": {"lean": ["QF.Props.C14", "QF.Props.C14Quote", "QF.Props.C14ToJson", "QF.Props.C16"], "extra_ns": ["QF.Props.C14ToJson", "QF.Props.C16"],
             "sections": [dict(hist("hist", ["tojson", "tojson", "sort", "filter", "apply"], quick=250), cover_ops={"tojson"}),
+                         dict({"section": "hist", "tag": "hist-jsonfloat", "opt": "floatheavy=1," + mix("tojson", "tojson", "sort", "filter"), "quick": 150, "thorough": 1500}, cover_ops={"tojson"}),
                          {"section": "quote", "quick": 300, "thorough": 5000, "cover_ops": {"QS"}}],
             "rule": "cases = ToJSON of a derived frame; the bytes are parsed with the spec's RFC 8259 parser (validity) and every record must denote its row (ints exactly, floats parsing back to identical bits, "
                     "NaN/null as null, strings and names decoded with invalid bytes as U+FFFD); ReadJSON of the bytes must reproduce the frame where the property promises it"},
